@@ -50,8 +50,45 @@ Qed.
 Lemma unset_level_other ss ip : forall s x, In x s -> fst (fst x) <> ip -> In x (unset_level ss ip s).
 Proof.
   unfold unset_level. induction ss as [|y r IH]; intros s x H Hp; cbn [fold_left]; [exact H|].
-  apply IH; [|exact Hp]. destruct y as [a n t d sub|c o sub]; [|exact H].
+  apply IH; [|exact Hp]. destruct y as [a n t d sub|c o fd sub]; [|exact H].
   destruct (_ && _); [apply sc_unset_other; assumption|exact H].
+Qed.
+
+(* ScrubFields.UnsetForType touches the one (path, type, field) it names *)
+Lemma sc_unset_type_other s p t f x : In x s -> x <> (p, t, f) -> In x (sc_unset_type s p t f).
+Proof.
+  intros H Hx. unfold sc_unset_type. apply filter_In. split; [exact H|].
+  destruct (path_eqb (fst (fst x)) p) eqn:E1; [|reflexivity]. destruct (snd (fst x) =? t) eqn:E2; [|reflexivity].
+  destruct (snd x =? f) eqn:E3; [|reflexivity]. exfalso. apply Hx. apply path_eqb_eq in E1. apply String.eqb_eq in E2, E3.
+  destruct x as [[xp xt] xf]. cbn [fst snd] in *. subst. reflexivity.
+Qed.
+Lemma sc_unset_type_sub s p t f x : In x (sc_unset_type s p t f) -> In x s.
+Proof. unfold sc_unset_type. intros H. apply filter_In in H. apply H. Qed.
+Lemma sc_unset_type_gone s p t f : ~ In (p, t, f) (sc_unset_type s p t f).
+Proof.
+  unfold sc_unset_type. intros H. apply filter_In in H as [_ H]. cbn [fst snd] in H.
+  assert (E : path_eqb p p = true) by (apply path_eqb_eq; reflexivity). rewrite E, !String.eqb_refl in H. discriminate.
+Qed.
+Lemma unset_selected_other sc path sub : forall s x, In x s ->
+  (fst (fst x) = path -> ~ In (snd (fst x), snd x) (client_selected sc sub)) -> In x (unset_selected sc path sub s).
+Proof.
+  unfold unset_selected. induction (client_selected sc sub) as [|h r IH]; intros s x H Hn; cbn [fold_left]; [exact H|].
+  apply IH.
+  - apply sc_unset_type_other; [exact H|]. intros E. subst x. cbn [fst snd] in Hn. apply (Hn eq_refl). left. destruct h; reflexivity.
+  - intros E H'. apply (Hn E). right. exact H'.
+Qed.
+Lemma unset_selected_sub sc path sub : forall s x, In x (unset_selected sc path sub s) -> In x s.
+Proof.
+  unfold unset_selected. induction (client_selected sc sub) as [|h r IH]; intros s x H; cbn [fold_left] in H; [exact H|].
+  apply IH in H. apply sc_unset_type_sub in H. exact H.
+Qed.
+Lemma unset_selected_gone sc path sub : forall s t f, In (t, f) (client_selected sc sub) -> ~ In (path, t, f) (unset_selected sc path sub s).
+Proof.
+  unfold unset_selected. induction (client_selected sc sub) as [|h r IH]; intros s t f Hin; [destruct Hin|]. cbn [fold_left].
+  destruct Hin as [E|Hin]; [|apply IH, Hin]. subst h. cbn [fst snd]. intros H.
+  assert (G : forall l s0 x, In x (fold_left (fun acc h => sc_unset_type acc path (fst h) (snd h)) l s0) -> In x s0).
+  { induction l as [|h' l' IHl]; intros s0 x Hx; [exact Hx|]. cbn [fold_left] in Hx. apply IHl in Hx. apply sc_unset_type_sub in Hx. exact Hx. }
+  apply G in H. apply sc_unset_type_gone in H. exact H.
 Qed.
 
 (* the types an object selected through a field of type ty can have, as far as registration goes *)
@@ -101,22 +138,22 @@ Lemma san_sel_field tm sc ip a n ty d x sub result scr :
   let '(child, sf) := sanitize tm sc (x :: sub) (ip ++ [a]) in
   let scr1 := sc_merge scr sf in
   let '(child', added) := add_scrub_fields tm sc child ty in
-  (add_to_result result [SanField a n ty d child'], set_missing sc ip a ty child' scr1 added).
+  (add_to_result result [SanField a n ty d child'], unset_selected sc (ip ++ [a]) (x :: sub) (set_missing sc ip a ty child' scr1 added)).
 Proof.
   cbn [san_sel]. rewrite level_go. rewrite sanitize_level. cbn [level fold_left].
   fold (level tm sc (ip ++ [a]) sub (san_sel tm sc (ip ++ [a]) x ([], []))).
   destruct (level tm sc (ip ++ [a]) sub (san_sel tm sc (ip ++ [a]) x ([], []))) as [child sf]. cbn [fst snd].
   destruct (add_scrub_fields tm sc child ty). reflexivity.
 Qed.
-Lemma san_sel_frag tm sc ip c o sub result scr :
-  san_sel tm sc ip (SanFrag c o sub) (result, scr) =
+Lemma san_sel_frag tm sc ip c o fd sub result scr :
+  san_sel tm sc ip (SanFrag c o fd sub) (result, scr) =
   let '(child, sf) := sanitize tm sc sub ip in
   let scr1 := sc_merge scr sf in
   let '(child', added) := add_scrub_fields tm sc child c in
   let scr2 := set_frag sc ip c scr1 added in
   match kind_of sc o with
-  | KIface => (add_to_result result (sanitize_iface sc child' c o), scr2)
-  | KUnion => (add_to_result result (sanitize_union child' c o), scr2)
+  | KIface => (add_to_result result (sanitize_iface sc child' c o fd), scr2)
+  | KUnion => (add_to_result result (sanitize_union child' c o fd), scr2)
   | KOther => (add_to_result result child', scr2)
   end.
 Proof.
@@ -125,35 +162,44 @@ Proof.
   destruct (add_scrub_fields tm sc child c). reflexivity.
 Qed.
 
-(* the accumulated registrations only grow while a level is processed *)
-Lemma san_sel_mono tm sc ip s result scr x : In x scr -> In x (snd (san_sel tm sc ip s (result, scr))).
+(* what processing one selection of a level takes out of the registrations made so far: for a field, what the client
+   selects himself through the fragments below it, at the field's path *)
+Definition takes_out (sc : sschema) (ip : list string) (s : ssel) (x : entry) : Prop :=
+  match s with
+  | SanField a _ _ _ sub => fst (fst x) = ip ++ [a] /\ In (snd (fst x), snd x) (client_selected sc sub)
+  | SanFrag _ _ _ _ => False
+  end.
+(* apart from that the accumulated registrations only grow while a level is processed *)
+Lemma san_sel_mono tm sc ip s result scr x : In x scr -> ~ takes_out sc ip s x -> In x (snd (san_sel tm sc ip s (result, scr))).
 Proof.
-  intros H. destruct s as [a n ty d [|y sub]|c o sub].
+  intros H Hn. destruct s as [a n ty d [|y sub]|c o fd sub].
   - cbn [san_sel snd]. exact H.
   - rewrite san_sel_field. destruct (sanitize tm sc (y :: sub) (ip ++ [a])) as [child sf].
     destruct (add_scrub_fields tm sc child ty) as [child' added]. cbn [snd].
-    apply set_missing_mono, sc_merge_left, H.
+    apply unset_selected_other; [apply set_missing_mono, sc_merge_left, H|].
+    intros E H'. apply Hn. cbn [takes_out]. split; assumption.
   - rewrite san_sel_frag. destruct (sanitize tm sc sub ip) as [child sf].
     destruct (add_scrub_fields tm sc child c) as [child' added].
     assert (In x (set_frag sc ip c (sc_merge scr sf) added)).
     { apply set_frag_mono, sc_merge_left, H. }
     destruct (kind_of sc o); cbn [snd]; assumption.
 Qed.
-Lemma level_mono tm sc ip ss : forall acc x, In x (snd acc) -> In x (snd (level tm sc ip ss acc)).
+Lemma level_mono tm sc ip ss : forall acc x, In x (snd acc) -> (forall s, In s ss -> ~ takes_out sc ip s x) -> In x (snd (level tm sc ip ss acc)).
 Proof.
-  induction ss as [|s r IH]; intros acc x H; [exact H|]. cbn [level fold_left]. apply IH.
-  destruct acc as [result scr]. apply san_sel_mono, H.
+  induction ss as [|s r IH]; intros acc x H Hn; [exact H|]. cbn [level fold_left]. apply IH.
+  - destruct acc as [result scr]. apply san_sel_mono; [exact H|]. apply Hn. left. reflexivity.
+  - intros s' Hs'. apply Hn. right. exact Hs'.
 Qed.
 
 (* ---- where a field occurs: under which insertion path ---- *)
 Inductive occ : list ssel -> list string -> ssel -> list string -> Prop :=
 | occ_here ss ip s : In s ss -> occ ss ip s ip
 | occ_field ss ip a n ty d sub s ip' : In (SanField a n ty d sub) ss -> occ sub (ip ++ [a]) s ip' -> occ ss ip s ip'
-| occ_frag ss ip c o sub s ip' : In (SanFrag c o sub) ss -> occ sub ip s ip' -> occ ss ip s ip'.
+| occ_frag ss ip c o fd sub s ip' : In (SanFrag c o fd sub) ss -> occ sub ip s ip' -> occ ss ip s ip'.
 
 Lemma occ_longer ss ip s ip' : occ ss ip s ip' -> List.length ip <= List.length ip'.
 Proof.
-  induction 1 as [| ? ? ? ? ? ? ? ? ? _ _ IH | ? ? ? ? ? ? ? _ _ IH]; [lia| |exact IH].
+  induction 1 as [| ? ? ? ? ? ? ? ? ? _ _ IH | ? ? ? ? ? ? ? ? _ _ IH]; [lia| |exact IH].
   rewrite app_length in IH. cbn in IH. lia.
 Qed.
 
@@ -164,38 +210,64 @@ Definition added_for (tm : tmap) (sc : sschema) (ip : list string) (a ty : strin
 Definition selection_for (tm : tmap) (sc : sschema) (ip : list string) (a ty : string) (sub : list ssel) : list ssel :=
   fst (add_scrub_fields tm sc (fst (sanitize tm sc sub (ip ++ [a]))) ty).
 
+(* no occurrence of the response key at that place selects the field itself, through a fragment, for that type *)
+Definition not_client_selected (sc : sschema) (ss : list ssel) (ip : list string) (a : string) (ip' : list string) (T f : string) : Prop :=
+  forall n' ty' d' sub', occ ss ip (SanField a n' ty' d' sub') ip' -> ~ In (T, f) (client_selected sc sub').
+
+Lemma tail_neq (ip ip' : list string) (a a0 : string) : List.length ip < List.length ip' -> ip' ++ [a] <> ip ++ [a0].
+Proof. intros Hl E. apply (f_equal (@List.length string)) in E. rewrite !app_length in E. cbn in E. lia. Qed.
+
 Theorem added_helpers_are_registered tm sc : forall ss ip a n ty d x sub ip',
   occ ss ip (SanField a n ty d (x :: sub)) ip' ->
   forall f T, In f (added_for tm sc ip' a ty (x :: sub)) -> In T (reg_types sc ty) ->
   (kind_of sc ty = KOther \/ frag_has (selection_for tm sc ip' a ty (x :: sub)) T f = false) ->
+  not_client_selected sc ss ip a ip' T f ->
   In (ip' ++ [a], T, f) (snd (sanitize tm sc ss ip)).
 Proof.
   intros ss ip a n ty d x sub ip' Hocc. remember (SanField a n ty d (x :: sub)) as s eqn:Es.
-  induction Hocc as [ss ip s Hin | ss ip a0 n0 ty0 d0 sub0 s ip' Hin Hocc IH | ss ip c o sub0 s ip' Hin Hocc IH];
-    intros f T Hf HT Hfr; rewrite sanitize_level; cbn [snd].
+  induction Hocc as [ss ip s Hin | ss ip a0 n0 ty0 d0 sub0 s ip' Hin Hocc IH | ss ip c o fd sub0 s ip' Hin Hocc IH];
+    intros f T Hf HT Hfr Hcs; rewrite sanitize_level; cbn [snd].
   - subst s. apply unset_level_other; [|cbn [fst]; intros E; apply (f_equal (@List.length string)) in E; rewrite app_length in E; cbn in E; lia].
-    apply in_split in Hin as (l1 & l2 & ->). unfold level. rewrite fold_left_app. cbn [fold_left].
-    apply level_mono. match goal with |- context [san_sel _ _ _ _ ?acc] => destruct acc as [result scr] end. rewrite san_sel_field.
-    unfold added_for in Hf. unfold selection_for in Hfr. destruct (sanitize tm sc (x :: sub) (ip ++ [a])) as [child sf]. cbn [fst] in Hf, Hfr.
-    destruct (add_scrub_fields tm sc child ty) as [child' added]. cbn [fst snd] in *.
-    apply set_missing_in; assumption.
-  - specialize (IH Es f T Hf HT Hfr). pose proof (occ_longer _ _ _ _ Hocc) as Hlen. rewrite app_length in Hlen. cbn in Hlen.
+    pose proof Hin as Hin0. apply in_split in Hin as (l1 & l2 & ->). unfold level. rewrite fold_left_app. cbn [fold_left].
+    apply level_mono.
+    + match goal with |- context [san_sel _ _ _ _ ?acc] => destruct acc as [result scr] end. rewrite san_sel_field.
+      unfold added_for in Hf. unfold selection_for in Hfr. destruct (sanitize tm sc (x :: sub) (ip ++ [a])) as [child sf]. cbn [fst] in Hf, Hfr.
+      destruct (add_scrub_fields tm sc child ty) as [child' added]. cbn [fst snd] in *.
+      apply unset_selected_other; [apply set_missing_in; assumption|]. cbn [fst snd]. intros _.
+      apply (Hcs n ty d (x :: sub)). apply occ_here. exact Hin0.
+    + intros s' Hs'. destruct s' as [a' n' ty' d' sub'|]; cbn [takes_out fst snd]; [|tauto]. intros [E Hsel].
+      apply app_inj_tail in E as [_ <-]. apply (Hcs n' ty' d' sub'); [|exact Hsel]. apply occ_here.
+      apply in_or_app. right. right. exact Hs'.
+  - assert (Hcs' : not_client_selected sc sub0 (ip ++ [a0]) a ip' T f).
+    { intros n' ty' d' sub' Ho. apply (Hcs n' ty' d' sub'). eapply occ_field; eassumption. }
+    specialize (IH Es f T Hf HT Hfr Hcs'). pose proof (occ_longer _ _ _ _ Hocc) as Hlen. rewrite app_length in Hlen. cbn in Hlen.
     apply unset_level_other; [|cbn [fst]; intros E; apply (f_equal (@List.length string)) in E; rewrite app_length in E; cbn in E; lia].
     apply in_split in Hin as (l1 & l2 & ->). unfold level. rewrite fold_left_app. cbn [fold_left].
-    apply level_mono. match goal with |- context [san_sel _ _ _ _ ?acc] => destruct acc as [result scr] end.
-    destruct sub0 as [|y sub0']; [inversion Hocc; subst; match goal with H : In _ [] |- _ => destruct H end|].
-    rewrite san_sel_field. destruct (sanitize tm sc (y :: sub0') (ip ++ [a0])) as [child sf]. cbn [snd] in IH.
-    destruct (add_scrub_fields tm sc child ty0) as [child' added]. cbn [snd].
-    apply set_missing_mono, sc_merge_right, IH.
-  - specialize (IH Es f T Hf HT Hfr). pose proof (occ_longer _ _ _ _ Hocc) as Hlen.
+    apply level_mono.
+    + match goal with |- context [san_sel _ _ _ _ ?acc] => destruct acc as [result scr] end.
+      destruct sub0 as [|y sub0']; [inversion Hocc; subst; match goal with H : In _ [] |- _ => destruct H end|].
+      rewrite san_sel_field. destruct (sanitize tm sc (y :: sub0') (ip ++ [a0])) as [child sf]. cbn [snd] in IH.
+      destruct (add_scrub_fields tm sc child ty0) as [child' added]. cbn [snd].
+      apply unset_selected_other; [apply set_missing_mono, sc_merge_right, IH|]. cbn [fst snd]. intros E.
+      exfalso. revert E. apply tail_neq. lia.
+    + intros s' Hs'. destruct s' as [a' n' ty' d' sub'|]; cbn [takes_out fst snd]; [|tauto]. intros [E _].
+      revert E. apply tail_neq. lia.
+  - assert (Hcs' : not_client_selected sc sub0 ip a ip' T f).
+    { intros n' ty' d' sub' Ho. apply (Hcs n' ty' d' sub'). eapply occ_frag; eassumption. }
+    specialize (IH Es f T Hf HT Hfr Hcs'). pose proof (occ_longer _ _ _ _ Hocc) as Hlen.
     apply unset_level_other; [|cbn [fst]; intros E; apply (f_equal (@List.length string)) in E; rewrite app_length in E; cbn in E; lia].
-    apply in_split in Hin as (l1 & l2 & ->). unfold level. rewrite fold_left_app. cbn [fold_left].
-    apply level_mono. match goal with |- context [san_sel _ _ _ _ ?acc] => destruct acc as [result scr] end.
-    rewrite san_sel_frag. destruct (sanitize tm sc sub0 ip) as [child sf]. cbn [snd] in IH.
-    destruct (add_scrub_fields tm sc child c) as [child' added].
-    assert (In (ip' ++ [a], T, f) (set_frag sc ip c (sc_merge scr sf) added)).
-    { apply set_frag_mono, sc_merge_right, IH. }
-    destruct (kind_of sc o); cbn [snd]; assumption.
+    pose proof Hin as Hin0. apply in_split in Hin as (l1 & l2 & El). unfold level. rewrite El, fold_left_app. cbn [fold_left].
+    apply level_mono.
+    + match goal with |- context [san_sel _ _ _ _ ?acc] => destruct acc as [result scr] end.
+      rewrite san_sel_frag. destruct (sanitize tm sc sub0 ip) as [child sf]. cbn [snd] in IH.
+      destruct (add_scrub_fields tm sc child c) as [child' added].
+      assert (In (ip' ++ [a], T, f) (set_frag sc ip c (sc_merge scr sf) added)).
+      { apply set_frag_mono, sc_merge_right, IH. }
+      destruct (kind_of sc o); cbn [snd]; assumption.
+    + (* a field next to the fragment with the same response key, at the same place *)
+      intros s' Hs'. destruct s' as [a' n' ty' d' sub'|]; cbn [takes_out fst snd]; [|tauto]. intros [E Hsel].
+      apply app_inj_tail in E as [-> <-]. apply (Hcs n' ty' d' sub'); [|exact Hsel]. apply occ_here.
+      rewrite El. apply in_or_app. right. right. exact Hs'.
 Qed.
 
 (* what add_scrub_fields adds are the two helper names, each at most once, and only when the selection lacks it *)
@@ -242,12 +314,12 @@ Definition ex_tm : tmap := [("Human", mkTP true [("name", "a")]); ("Pet", mkTP t
 Definition ex_sc : sschema := mkSS [("Being", KUnion); ("Node", KIface)] [("Being", ["Human"; "Pet"]); ("Node", ["Human"; "Pet"])] ["Node"].
 Definition ex_in : list ssel :=
   [SanField "me" "me" "Human" 0 [SanField "name" "name" "String" 0 []; SanField "friend" "friend" "Human" 0 [SanField "phone" "phone" "String" 0 []]];
-   SanField "beings" "beings" "Being" 0 [SanFrag "Pet" "Being" [SanField "weight" "weight" "Int" 0 []]]].
+   SanField "beings" "beings" "Being" 0 [SanFrag "Pet" "Being" 0 [SanField "weight" "weight" "Int" 0 []]]].
 Example ex_sanitize :
   sanitize ex_tm ex_sc ex_in [] =
   ([SanField "me" "me" "Human" 0 [id_helper; SanField "name" "name" "String" 0 [];
                                   SanField "friend" "friend" "Human" 0 [id_helper; SanField "phone" "phone" "String" 0 []]];
-    SanField "beings" "beings" "Being" 0 [typename_helper; SanFrag "Pet" "Being" [id_helper; SanField "weight" "weight" "Int" 0 []]]],
+    SanField "beings" "beings" "Being" 0 [typename_helper; SanFrag "Pet" "Being" 0 [id_helper; SanField "weight" "weight" "Int" 0 []]]],
    [(["me"; "friend"], "Human", "id"); (["me"], "Human", "id"); (["beings"], "Pet", "id");
     (["beings"], "Human", "__typename"); (["beings"], "Pet", "__typename")]).
 Proof. vm_compute. reflexivity. Qed.
@@ -289,7 +361,7 @@ Proof. intros (n & ty & d & sub & H). exists n, ty, d, sub. apply add_to_result_
 
 Lemma san_sel_keeps_aliases tm sc ip s result scr a : has_alias result a -> has_alias (fst (san_sel tm sc ip s (result, scr))) a.
 Proof.
-  intros H. destruct s as [a0 n ty d [|y sub]|c o sub].
+  intros H. destruct s as [a0 n ty d [|y sub]|c o fd sub].
   - cbn [san_sel fst]. apply has_alias_mono, H.
   - rewrite san_sel_field. destruct (sanitize tm sc (y :: sub) (ip ++ [a0])) as [child sf].
     destruct (add_scrub_fields tm sc child ty) as [child' added]. cbn [fst]. apply has_alias_mono, H.
